@@ -26,6 +26,7 @@ var (
 	ErrHeaderDataNotFound = errors.New("Header Data Not Found")
 	ErrWrongPreviousHash  = errors.New("Wrong Previous Hash")
 	ErrNotAncestor        = errors.New("Branch Not Ancestor")
+	ErrBranchContained    = errors.New("Branch Contained")
 )
 
 type Branch struct {
@@ -475,6 +476,34 @@ func (b *Branch) Connect(ctx context.Context, store storage.Storage,
 
 	if err := b.Reload(ctx, store); err != nil {
 		return nil, errors.Wrap(err, "reload")
+	}
+
+	// Find the highest header of this branch that is already in one of the branches, so this
+	// branch is connected where it actually forks and does not duplicate those headers.
+	for i := len(b.headers) - 1; i >= 0; i-- {
+		for _, branch := range branches {
+			height := branch.Find(b.headers[i].Hash)
+			if height == -1 {
+				continue
+			}
+
+			if i == len(b.headers)-1 {
+				return nil, ErrBranchContained // all headers are already in the branches
+			}
+
+			result, err := NewBranch(branch, height, b.headers[i+1].Header)
+			if err != nil {
+				return nil, errors.Wrap(err, "new branch")
+			}
+
+			height += 2
+			for _, header := range b.headers[i+2:] {
+				result.add(header, height)
+				height++
+			}
+
+			return result, nil
+		}
 	}
 
 	var parent *Branch
